@@ -59,6 +59,18 @@ def judge_c01(scn, run) -> Tuple[List[Viol], Dict[str, int]]:
         for conn in cl.conns:
             for a in conn.anomalies:
                 v.append(("C01/partial-rewrite", a))
+        # whatever was started on the wire must have been completed by the time the run is over
+        for cid, idx, acc, n, data in getattr(cl, "final_units", []):
+            if acc:
+                cnt(c, "judged-wire-units")
+            if 0 < acc < n and not run.deadlock:
+                v.append(("C01/partial-frame-on-wire/%s" % frames.classify(data),
+                          "only %d of the %d bytes of a %s frame ever reached the device on connection %d" % (
+                              acc, n, frames.classify(data), cid)))
+            elif 0 < acc < n:
+                cnt(c, "grey:deadlocked-run")
+            if any(op.outcome and op.outcome[0] == "exc" and op.outcome[1] in ("TimeoutError", "CancelledError") for op in cl.ops):
+                cnt(c, "probe:operation-abandoned-by-caller")
     for cl, op in all_ops(run):
         lr = login_read(op)
         for i, u in enumerate(op.units):
@@ -357,7 +369,14 @@ def judge_c03(scn, run) -> Tuple[List[Viol], Dict[str, int]]:
             if len(u) < 44:
                 continue
             if i > 0 and (lr is None or len(lr) < 12):
+                # no session in this login reply: the frame layout is not judged, but it must not be bound to a
+                # session some EARLIER login handed out (that would be a leak between operations)
                 cnt(c, "grey:login-reply-without-session")
+                whose = seen_sessions.get(bytes(u[8:12]))
+                if whose is not None and (whose[0] != cl.idx or whose[1] != op.uid):
+                    v.append(("C03/stale-session-after-short-login/%s" % op.kind,
+                              "%s: this operation's login reply had only %d bytes, yet frame %d carries session %s "
+                              "that was issued to client %d op %s" % (op.kind, len(lr or b""), i, u[8:12].hex(), whose[0], whose[1])))
                 continue
             ts = struct.unpack("<I", u[24:28])[0]
             if not (lo <= ts <= hi):
